@@ -248,6 +248,42 @@ class Program:
         s[relpath] = new_src
         return Program(s, self.repo + "+variant")
 
+    def vanished_callees(self):
+        """(relpath, qualname) -> private functions / methods that the reference version of that function calls
+        and that no longer exist anywhere in the analysed program (a known helper folded back into its caller:
+        what a rule sees in the caller is then not what it was written against)"""
+        if getattr(self, "_vanished", None) is not None:
+            return self._vanished
+        from .refnorm import load_inventory
+
+        self._vanished = {}
+        inv = load_inventory()
+        if inv is None or self.unknown_functions is None:
+            return self._vanished
+        present, present_methods = set(), set()
+        for m in self.modules.values():
+            for f in m.all_funcs:
+                if f.cls is None:
+                    present.add(f.qualname.split(".")[0])
+                else:
+                    present_methods.add(f.qualname)
+        ref_funcs, ref_methods = set(), set()
+        for rel, fns in inv.get("modules", {}).items():
+            for q in fns:
+                if "." not in q:
+                    ref_funcs.add(q)
+                else:
+                    ref_methods.add(q)
+        for rel, fns in inv.get("modules", {}).items():
+            for q, info in fns.items():
+                gone = [n for n in info.get("fns", ()) if n.startswith("_") and not n.startswith("__") and n in ref_funcs and n not in present]
+                if "." in q:
+                    cls = q.rsplit(".", 1)[0]
+                    gone += [a for a in set(info.get("attrs", ())) if a.startswith("_") and f"{cls}.{a}" in ref_methods and f"{cls}.{a}" not in present_methods]
+                if gone:
+                    self._vanished[(rel, q)] = sorted(set(gone))
+        return self._vanished
+
     def digest(self):
         h = hashlib.sha256()
         for k in sorted(self.sources):
